@@ -51,7 +51,10 @@ def coalesceRefM (p : Prims) (sk : Skip) (skipExc : List String) : List (V → M
     match ← M.attempt (g t) with
     | .error e => if caught p skipExc e then coalesceRefM p sk skipExc gs t else M.throw e
     | .ok v => do
-      if ← skipFunc p sk v then coalesceRefM p sk skipExc gs t else pure (some v)
+      match ← M.attempt (skipFunc p sk v) with
+      | .error e => if caught p skipExc e then coalesceRefM p sk skipExc gs t else M.throw e
+      | .ok true => coalesceRefM p sk skipExc gs t
+      | .ok false => pure (some v)
 
 /-- the items of a list target whose sub-spec evaluation runs: up to and including the first one
     that yields STOP -/
@@ -60,5 +63,220 @@ def evaluatedItems (f : V → V) : List V → List V
   | x :: xs => match f x with
     | .stop => [x]
     | _ => x :: evaluatedItems f xs
+
+/-! ### the checker: the composite recomputed from separately observed sub-results
+
+The property: "the output of a dict, list or tuple spec is determined only by the outputs of its
+sub-specs".  `composeRef` recomputes the outcome (value or exception) and the call log of a spec
+from the outcomes of its *leaves* — the sub-specs that are not themselves an AUTO-mode tuple,
+Pipe, dict, list, Val, Spec, Auto or Coalesce — each observed by a **separate** top-level evaluation (`leaf pos s t`: the
+outcome of evaluating leaf `s`, which stands at position `pos` of the spec tree, on target `t`),
+with the rules of the property text and nothing else: a tuple / Pipe feeds each result to the
+next step, SKIP omits the step, STOP ends the chain; a dict spec holds the sub-results under the
+same keys in the same order (value before a computed key; SKIP omits the entry); a list spec maps
+its sub-spec over the target's iteration in order, SKIP omits, STOP ends; an exception ends the
+evaluation; the log is the concatenation of the leaves' logs in evaluation order.  `none` = a leaf
+observation is missing.  `checkC03` compares that with the observed outcome of the whole spec. -/
+
+/-- outcome of one evaluation: value or exception, and the events it logged -/
+abbrev Outcome := Except Err V × List Ev
+
+abbrev LeafFn := List Nat → Spec → V → Option Outcome
+
+/-- an AUTO-mode container spec (everything else is a leaf of the composition) -/
+def Spec.isAutoContainer : Spec → Bool
+  | .tuple _ | .pipe _ | .dict .. | .list (_ :: _) | .val _ | .specW _ [] | .auto _ | .coalesce .. => true
+  | _ => false
+
+/-- an outcome after the events `l` -/
+def Outcome.after (l : List Ev) (o : Outcome) : Outcome := (o.1, l ++ o.2)
+
+def chainC (rec : List Nat → Spec → V → Option Outcome) (pos : List Nat) :
+    Nat → List Spec → V → Option Outcome
+  | _, [], t => some (.ok t, [])
+  | i, s :: rest, t =>
+    match rec (pos ++ [i]) s t with
+    | Option.none => Option.none
+    | some (.error e, l) => some (.error e, l)
+    | some (.ok v, l) =>
+      match v with
+      | .skip => (chainC rec pos (i + 1) rest t).map (Outcome.after l)
+      | .stop => some (.ok t, l)
+      | v => (chainC rec pos (i + 1) rest v).map (Outcome.after l)
+
+def listC (rec : List Nat → Spec → V → Option Outcome) (pos : List Nat) (sub : Spec) :
+    List V → List V → Option Outcome
+  | [], acc => some (.ok (.list acc), [])
+  | item :: rest, acc =>
+    match rec (pos ++ [0]) sub item with
+    | Option.none => Option.none
+    | some (.error e, l) => some (.error e, l)
+    | some (.ok v, l) =>
+      match v with
+      | .skip => (listC rec pos sub rest acc).map (Outcome.after l)
+      | .stop => some (.ok (.list acc), l)
+      | v => (listC rec pos sub rest (acc ++ [v])).map (Outcome.after l)
+
+def dictC (p : Prims) (rec : List Nat → Spec → V → Option Outcome) (pos : List Nat) (o : Bool) (t : V) :
+    Nat → List (Spec × Spec) → List (V × V) → Option Outcome
+  | _, [], acc => some (.ok (.dict o acc), [])
+  | i, (field, sub) :: rest, acc =>
+    match rec (pos ++ [i, 1]) sub t with
+    | Option.none => Option.none
+    | some (.error e, l) => some (.error e, l)
+    | some (.ok v, l) =>
+      match v with
+      | .skip => (dictC p rec pos o t (i + 1) rest acc).map (Outcome.after l)
+      | v =>
+        if field.isComputedKey then
+          match rec (pos ++ [i, 0]) field t with
+          | Option.none => Option.none
+          | some (.error e, l2) => some (.error e, l ++ l2)
+          | some (.ok k, l2) =>
+            if p.hashable k then (dictC p rec pos o t (i + 1) rest (dictSet p acc k v)).map (Outcome.after (l ++ l2))
+            else some (.error ⟨"TypeError"⟩, l ++ l2)
+        else
+          match reify field with
+          | some k => (dictC p rec pos o t (i + 1) rest (dictSet p acc k v)).map (Outcome.after l)
+          | Option.none => some (.error ⟨"Unsupported"⟩, l)
+
+/-! the same rules over *outcome functions* of the sub-specs (what a sub-spec yields and logs on a
+   target): the accumulator-free reference the theorems relate the interpreter's loops to -/
+
+def chainF : List (V → Outcome) → V → Outcome
+  | [], t => (.ok t, [])
+  | f :: fs, t =>
+    match f t with
+    | (.error e, l) => (.error e, l)
+    | (.ok v, l) =>
+      match v with
+      | .skip => (chainF fs t).after l
+      | .stop => (.ok t, l)
+      | v => (chainF fs v).after l
+
+def listF (f : V → Outcome) : List V → List V → Outcome
+  | [], acc => (.ok (.list acc), [])
+  | item :: rest, acc =>
+    match f item with
+    | (.error e, l) => (.error e, l)
+    | (.ok v, l) =>
+      match v with
+      | .skip => (listF f rest acc).after l
+      | .stop => (.ok (.list acc), l)
+      | v => (listF f rest (acc ++ [v])).after l
+
+/-- dict spec: the value first; then a computed key (`some kf`) or the literal one (`k`) -/
+def dictF (p : Prims) (o : Bool) (t : V) : List (V × Option (V → Outcome) × (V → Outcome)) → List (V × V) → Outcome
+  | [], acc => (.ok (.dict o acc), [])
+  | (k, kf, f) :: rest, acc =>
+    match f t with
+    | (.error e, l) => (.error e, l)
+    | (.ok v, l) =>
+      match v with
+      | .skip => (dictF p o t rest acc).after l
+      | v =>
+        match kf with
+        | some g =>
+          match g t with
+          | (.error e, l2) => (.error e, l ++ l2)
+          | (.ok k', l2) =>
+            if p.hashable k' then (dictF p o t rest (dictSet p acc k' v)).after (l ++ l2)
+            else (.error ⟨"TypeError"⟩, l ++ l2)
+        | Option.none => (dictF p o t rest (dictSet p acc k v)).after l
+
+/-- positions of the auxiliary observations of a Coalesce at `pos`: its skip predicate applied to a
+    value, its default evaluated in argument position, its default factory called -/
+def posSkipPred (pos : List Nat) : List Nat := pos ++ [1000]
+def posDefault (pos : List Nat) : List Nat := pos ++ [2000]
+def posFactory (pos : List Nat) : List Nat := pos ++ [2001]
+
+/-- is a value skipped?  a tuple of values / a single value by `==`; a predicate by a separately
+    observed call (`leaf` on the bare callable with the value as target) -/
+def skipC (p : Prims) (leaf : LeafFn) (pos : List Nat) (sk : Skip) (v : V) : Option (Except Err Bool × List Ev) :=
+  match sk with
+  | .never => some (.ok false, [])
+  | .anyOf vs => some (.ok (vs.any (fun x => p.eq x v)), [])
+  | .eq x => some (.ok (p.eq v x), [])
+  | .pred n k =>
+    match leaf (posSkipPred pos) (.fn n k) v with
+    | Option.none => Option.none
+    | some (.ok r, l) => some (.ok (p.truthy r), l)
+    | some (.error e, l) => some (.error e, l)
+
+/-- Coalesce: the alternatives in order; an exception in `skip_exc` (raised by the alternative or by
+    the skip predicate) or a skipped value passes on to the next; anything else propagates; the
+    first non-skipped success wins -/
+def coalC (p : Prims) (leaf : LeafFn) (rec : List Nat → Spec → V → Option Outcome) (pos : List Nat) (t : V)
+    (sk : Skip) (se : List String) : Nat → List Spec → Option (Except Err (Option V) × List Ev)
+  | _, [] => some (.ok Option.none, [])
+  | i, s :: rest =>
+    let next (l : List Ev) := (coalC p leaf rec pos t sk se (i + 1) rest).map (fun o => (o.1, l ++ o.2))
+    match rec (pos ++ [i]) s t with
+    | Option.none => Option.none
+    | some (.error e, l) => if caught p se e then next l else some (.error e, l)
+    | some (.ok v, l) =>
+      match skipC p leaf pos sk v with
+      | Option.none => Option.none
+      | some (.error e, l2) => if caught p se e then next (l ++ l2) else some (.error e, l ++ l2)
+      | some (.ok true, l2) => next (l ++ l2)
+      | some (.ok false, l2) => some (.ok (some v), l ++ l2)
+
+/-- the composite from the leaves (fuel bounds the nesting depth of containers) -/
+def composeRef (p : Prims) (leaf : LeafFn) : Nat → List Nat → Spec → V → Option Outcome
+  | 0, _, _, _ => Option.none
+  | fuel + 1, pos, spec, t =>
+    match spec with
+    | .tuple xs => chainC (composeRef p leaf fuel) pos 0 xs t
+    | .pipe xs => chainC (composeRef p leaf fuel) pos 0 xs t
+    | .dict o es => dictC p (composeRef p leaf fuel) pos o t 0 es []
+    | .list (sub :: _) =>
+      match p.iterate t with
+      | .error e => some (.error e, [])
+      | .ok items => listC (composeRef p leaf fuel) pos sub items []
+    | .val v => some (.ok v, [])
+    | .specW s [] => composeRef p leaf fuel (pos ++ [0]) s t
+    | .auto s => composeRef p leaf fuel (pos ++ [0]) s t
+    | .coalesce subs dflt fac sk se =>
+      match coalC p leaf (composeRef p leaf fuel) pos t sk se 0 subs with
+      | Option.none => Option.none
+      | some (.error e, l) => some (.error e, l)
+      | some (.ok (some v), l) => some (.ok v, l)
+      | some (.ok Option.none, l) =>
+        match dflt, fac with
+        | some d, _ =>
+          (leaf (posDefault pos) (.coalesce [] (some d) Option.none .never []) t).map (fun o => (o.1, l ++ o.2))
+        | Option.none, some (n, k) =>
+          (leaf (posFactory pos) (.invoke (.fn n k) false []) t).map (fun o => (o.1, l ++ o.2))
+        | Option.none, Option.none => some (.error ⟨"CoalesceError"⟩, l)
+    | s => leaf pos s t
+
+/-- **C03 checker**: the observed outcome of the whole spec is the one composed from the separately
+    observed outcomes of its leaves (`eqV`: equality of canonical values) -/
+def checkC03 (p : Prims) (eqO : Outcome → Outcome → Bool) (leaf : LeafFn) (fuel : Nat) (spec : Spec) (t : V)
+    (whole : Outcome) : Bool :=
+  match composeRef p leaf fuel [] spec t with
+  | some o => eqO o whole
+  | Option.none => false
+
+/-- no construct that reads or writes the scope, no lazy stream, no Vars: the specs whose leaves can
+    be observed by separate top-level calls -/
+def scopeFreeF : Nat → Spec → Bool
+  | 0, _ => false
+  | fuel + 1, s =>
+    let n := scopeFreeF fuel
+    match s with
+    | .sRead .. | .sGlobRead _ | .sVarRead .. | .sBind _ | .aBind _ | .aGlob _ | .aVar .. | .letB _
+    | .ref .. | .vars _ | .iter .. | .probe _ | .rprobe .. => false
+    | .specW s sc => sc.isEmpty && n s
+    | .tuple xs | .list xs | .set _ xs | .pipe xs => xs.all n
+    | .dict _ es => es.all (fun e => n e.1 && n e.2)
+    | .coalesce subs d _ _ _ => subs.all n && (match d with | some x => n x | Option.none => true)
+    | .call f as kw => n f && n as && n kw
+    | .invoke f _ blocks => n f && blocks.all (fun b => b.2.1.all n && b.2.2.all (fun kv => n kv.2))
+    | .auto s | .fill s | .group s | .not s | .inspect s _ _ | .reqKey s | .reenter _ s => n s
+    | .mtch s d => n s && (match d with | some x => n x | Option.none => true)
+    | .and cs d | .or cs d => cs.all n && (match d with | some x => n x | Option.none => true)
+    | .switch cases d => cases.all (fun e => n e.1 && n e.2) && (match d with | some x => n x | Option.none => true)
+    | _ => true
 
 end Glom.Interp
